@@ -11,13 +11,17 @@
 //	(iii) applying the rest of the log to B gives the same per-entry results as A and the same final dump,
 //	(iv)  a second generation (snapshot of B restored into C) equals B.
 //
-// Differences => run.Violate("snap:<table-or-query>", …) with a greedily shrunk witness history.
+// Differences => run.Violate("snap:<…>", …): one violation per signature with the shortest witness seen
+// (greedily shrunk when longer than 3 entries). Signatures name the shape of the difference
+// (snap:<table>:<Field>, :rows-lost, :rows-added, snap:index:<key class>) unless the difference is exactly what
+// one of the known mechanisms of diff.go predicts (then: that mechanism's signature, see known_findings.txt).
+// A fixed corpus (scenarios.go) replays one minimal witness per known mechanism, and plain round trips, first.
 //
 // Correspondence with the Lean model (CV/Snap.lean through cvd_c02): for every cut the modelled
 // instance of A's state (index table, kvs, tombstones, sessions, peerings, trust bundles) is written as
-// one `rt` operation; the implementation's answer is the same instance read back from B, the header
-// LastIndex and the order of the record kinds in the real snapshot stream; the model answers with
-// restore (snapshot s).
+// one `rt` operation; the implementation's answer is the same instance read back from B (plus the derived
+// session_checks and the derived usage row "kvs"), the header LastIndex and the order of the record kinds in
+// the real snapshot stream; the model answers with restore (snapshot s).
 package main
 
 import (
@@ -175,13 +179,13 @@ func readStream(b []byte) (last uint64, runs []run2, err error) {
 // ---------------------------------------------------------------- the modelled instance (Lean side)
 
 type mstate struct {
-	index                  []*state.IndexEntry
-	kvs                    []*structs.DirEntry
-	tombs                  []*state.Tombstone
-	sessions               []*structs.Session
-	sessionChecks          [][3]string // node, check, session
-	peerings               []*pbpeering.Peering
-	bundles                []*pbpeering.PeeringTrustBundle
+	index         []*state.IndexEntry
+	kvs           []*structs.DirEntry
+	tombs         []*state.Tombstone
+	sessions      []*structs.Session
+	sessionChecks [][3]string // node, check, session
+	peerings      []*pbpeering.Peering
+	bundles       []*pbpeering.PeeringTrustBundle
 }
 
 func modelState(st *state.Store) *mstate {
@@ -385,22 +389,73 @@ func listElems(out string) (head string, elems []string) {
 	return head, elems
 }
 
-func sortedForm(out string) string {
-	head, el := listElems(out)
-	if el == nil {
-		return out
+// sortedForm sorts the elements of EVERY list in a canon string, at any depth (ServiceTopology returns a
+// struct whose Upstreams / Downstreams lists come out of Go maps).
+func sortedForm(s string) string {
+	var b strings.Builder
+	for i := 0; i < len(s); {
+		switch s[i] {
+		case '"':
+			j := i + 1
+			for j < len(s) && s[j] != '"' {
+				if s[j] == '\\' {
+					j++
+				}
+				j++
+			}
+			if j >= len(s) {
+				j = len(s) - 1
+			}
+			b.WriteString(s[i : j+1])
+			i = j + 1
+		case '[':
+			depth, inStr, j := 0, false, i
+			for ; j < len(s); j++ {
+				c := s[j]
+				if inStr {
+					if c == '\\' {
+						j++
+					} else if c == '"' {
+						inStr = false
+					}
+					continue
+				}
+				if c == '"' {
+					inStr = true
+				} else if c == '[' {
+					depth++
+				} else if c == ']' {
+					depth--
+					if depth == 0 {
+						break
+					}
+				}
+			}
+			if j >= len(s) {
+				b.WriteString(s[i:])
+				return b.String()
+			}
+			_, el := listElems("x " + s[i:j+1])
+			for k := range el {
+				el[k] = sortedForm(el[k])
+			}
+			sort.Strings(el)
+			b.WriteString("[" + strings.Join(el, ",") + "]")
+			i = j + 1
+		default:
+			b.WriteByte(s[i])
+			i++
+		}
 	}
-	el = append([]string{}, el...)
-	sort.Strings(el)
-	return head + " [" + strings.Join(el, ",") + "]"
+	return b.String()
 }
 
 var nondetQueries = map[string]int{}
 
 // compareQueries returns the read APIs whose answer (or only whose query index) differs. An answer that
-// is the same list in another order (or another error text) is re-evaluated up to 200 times on the
-// original: if the original itself produces the restored server's answer, the variation comes from Go map
-// iteration (canonicalisation rule: what came out of a map is not compared by order) and is ignored.
+// is the same up to the order of list elements (or another error text) is re-evaluated up to 200 times on
+// the original: if the original's own answer varies, the variation comes from Go map iteration
+// (canonicalisation rule: what came out of a map is not compared by order) and is ignored.
 func compareQueries(prefix string, a, b []qres) (out []finding) {
 	seen := map[string]bool{}
 	for i := range a {
@@ -413,12 +468,14 @@ func compareQueries(prefix string, a, b []qres) (out []finding) {
 		}
 		name := reQName.FindString(a[i].name)
 		if a[i].again != nil && (sortedForm(a[i].out) == sortedForm(b[i].out) || (strings.Contains(a[i].out, " err=") && strings.Contains(b[i].out, " err="))) {
-			// same elements in another order, or two error texts: does the original itself give B's answer?
-			same := false
-			for n := 0; n < 200 && !same; n++ {
-				same = a[i].again() == b[i].out
+			// same elements in another order (at any depth), or two error texts: if the original's own answer
+			// varies between evaluations, the variation is Go map iteration, not the restore
+			varies := false
+			for n := 0; n < 200 && !varies; n++ {
+				o := a[i].again()
+				varies = o != a[i].out
 			}
-			if same {
+			if varies {
 				nondetQueries[name]++
 				continue
 			}
@@ -446,16 +503,16 @@ func sigList(fs []finding) string {
 
 // cutResult is everything observed about one cut of one history.
 type cutResult struct {
-	findings []finding
-	snapLen  int
-	last     uint64
-	runs     []run2
-	pre      *mstate
-	post     *mstate
-	dumpA    Dump
-	fatal    string
+	findings  []finding
+	snapLen   int
+	last      uint64
+	runs      []run2
+	pre       *mstate
+	post      *mstate
+	dumpA     Dump
+	fatal     string
 	postDiffs int
-	usageKvs string // usage row "kvs" of the restored server: "count;index" or "-"
+	usageKvs  string // usage row "kvs" of the restored server: "count;index" or "-"
 }
 
 // checkCut replays h[:k] on a fresh server A, snapshots, restores into B and runs monitors (i)-(iv).
